@@ -425,7 +425,8 @@ func ReadFromTTML(i io.Reader) (o *Subtitles, err error) {
 		}
 
 		// Remove items identation
-		lines := strings.Split(ts.Items, "\n")
+		// Lines may end with CR LF or CR: left as is, the CR would be decoded as a line break of its own
+		lines := strings.Split(strings.NewReplacer("\r\n", "\n", "\r", "\n").Replace(ts.Items), "\n")
 		for i := 0; i < len(lines); i++ {
 			lines[i] = strings.TrimLeftFunc(lines[i], unicode.IsSpace)
 		}
